@@ -346,17 +346,15 @@ class Tape:
             for k, sub in enumerate(ins):
                 others = [s for j, s in enumerate(ins) if j != k]
                 ovals = [x for j, x in enumerate(v) if j != k]
+                vk = v[k]
+                diag_ids = None
                 if len(set(sub)) != len(sub):
-                    # repeated index in operand (diagonal): use the ids trick
-                    ids = np.einsum(p["subs"], *[np.arange(x.size).reshape(x.shape) if j == k else np.ones(x.shape, dtype=np.int64) for j, x in enumerate(v)])
-                    z = np.zeros(v[k].size)
-                    scale = np.einsum(p["subs"], *[np.ones(x.shape) if j == k else x for j, x in enumerate(v)]) if others else 1.0
-                    # only supported for single-operand diagonal patterns
-                    if others:
-                        raise TapeError("einsum diag with several operands unsupported")
-                    np.add.at(z, ids.ravel(), g.ravel())
-                    res.append(z.reshape(v[k].shape))
-                    continue
+                    # repeated letter within one operand: x -> its (generalised) diagonal is a gather;
+                    # differentiate the pattern with the diagonal as the operand, then scatter back
+                    u = "".join(dict.fromkeys(sub))
+                    diag_ids = np.einsum(sub + "->" + u, np.arange(vk.size).reshape(vk.shape))
+                    vk = np.einsum(sub + "->" + u, vk)
+                    sub = u
                 # indices of `sub` missing from out and others were summed: broadcast g
                 avail = set(out) | set("".join(others))
                 missing = [c for c in sub if c not in avail]
@@ -364,10 +362,15 @@ class Tape:
                 expr = ",".join([out] + others) + "->" + sub_r
                 gk = np.einsum(expr, g, *ovals)
                 if missing:
-                    shp = [v[k].shape[sub.index(c)] for c in sub]
+                    shp = [vk.shape[sub.index(c)] for c in sub]
                     idx = tuple(slice(None) if c not in missing else None for c in sub)
                     gk = np.broadcast_to(gk[idx], shp).copy()
-                res.append(np.asarray(gk, dtype=np.float64))
+                gk = np.asarray(gk, dtype=np.float64)
+                if diag_ids is not None:
+                    z = np.zeros(v[k].size)
+                    np.add.at(z, diag_ids.ravel(), gk.ravel())
+                    gk = z.reshape(v[k].shape)
+                res.append(gk)
             return res
         if kind == "where":
             c = p["cond"]
@@ -588,6 +591,16 @@ class Tape:
                 if not np.isfinite(fd) or not np.isfinite(an):
                     continue
                 cancel = 8 * 2.2e-16 * max(abs(fp), abs(fm), 1.0) / h  # rounding of f(x+h)-f(x-h)
+                trunc = 0.0
                 if abs(fd - an) > atol + cancel + rtol * max(abs(fd), abs(an)):
+                    # steep functions (tan/sec/csch near their poles): estimate the truncation error of
+                    # the central difference from a second step size before calling it a disagreement
+                    vp2 = n.val.copy().ravel()
+                    vm2 = vp2.copy()
+                    vp2[j] += 4 * h
+                    vm2[j] -= 4 * h
+                    f2 = (self.eval_with({i: vp2.reshape(n.val.shape)}, root).sum() - self.eval_with({i: vm2.reshape(n.val.shape)}, root).sum()) / (8 * h)
+                    trunc = abs(f2 - fd) if np.isfinite(f2) else np.inf  # ~ 15x the h^2 term of fd itself
+                if abs(fd - an) > atol + cancel + trunc + rtol * max(abs(fd), abs(an)):
                     problems.append((i, j, float(fd), float(an)))
         return problems
